@@ -1,4 +1,5 @@
 """C18 — package members are private unless capitalised."""
+from . import common
 from .common import Check, iter_joined
 
 COARSE = {"NFSYM": "NF", "NFPKG": "NF", "NFHASH": "NF", "NOTPKG": "NOTREC"}
@@ -16,11 +17,23 @@ def split_input(inp):
 
 def main(argv):
     c = Check("C18", argv)
+    # (T) census of every route into the dot-path code (calls of dotGetSetHelper / nestedPathGetSet / errIfPrivate),
+    # regenerated from the current source; theorems census_is_modelled, walkers_as_modelled,
+    # privacy_checked_only_in_package_walker (vm_compute) say it is exactly what Model/PkgRoutes.v covers
+    rc, tout = common.translate("pkgroutes", "PkgRoutes.v")
+    routes_break = None
+    if rc != 0:
+        routes_break = tout[-2000:]
+        c.log("translator pkgroutes failed:\n" + tout[-1500:])
     c.proofs()
     c.trusted_base([
         "unicode.IsUpper is a section variable of the Coq development; the harness supplies its value for every first rune it uses",
         "the harness renders declarations to zygomys source text and classifies error texts by the stable substrings "
         "'Cannot access private member', 'could not find symbol', 'hash has no field', 'not found', 'not a record'",
+        "translator/cmd/pkgroutes recognises the call sites syntactically (dotGetSetHelper(env, <sym>.name, nil|&x), "
+        "<recv>.nestedPathGetSet(env, path|path[1:]|dotpaths[i+1:], nil|&x|setVal), errIfPrivate(curSym.name, curStack) under the three hop conditions)",
+        "the surrounding code of each route (what a builtin, a call, the generator of compound assignments does with the helper's result) "
+        "is modelled by hand in Model/PkgRoutes.v route_run and validated by the correspondence run",
         "model of package construction (build_world) and of the inside route (lexical_lookup: parameters, then captured scopes) "
         "is validated by the correspondence run, not derived from the Go source",
     ])
@@ -74,8 +87,15 @@ def main(argv):
             c.violation({"kind": "correspondence: implementation differs from the Coq model (dot_get_set / stack_walk / hash_walk / "
                                  "call_path / build_world); no case violating the specification found",
                          "cases": corr_fail[:10], "count": len(corr_fail)}, no_input=True, tag="corr")
+        elif routes_break:
+            c.violation({"kind": "translator pkgroutes no longer understands the source: a call of dotGetSetHelper / nestedPathGetSet / "
+                                 "errIfPrivate has a shape outside the modelled routes (argument is not the whole symbol name, unknown "
+                                 "path slice or value argument, privacy check under an unknown condition)", "detail": routes_break},
+                        no_input=True, tag="routes")
         elif c.proof_break:
-            c.violation({"kind": "proof obligation no longer checks", "detail": c.proof_break}, no_input=True, tag="proof")
+            c.violation({"kind": "proof obligation no longer checks (census_is_modelled / walkers_as_modelled / "
+                                 "privacy_checked_only_in_package_walker break when the source gains, loses or changes a route)",
+                         "detail": c.proof_break}, no_input=True, tag="proof")
     c.coverage["property_failures"] = len(prop_fail)
     c.coverage["property_failures_not_known"] = unknown
     c.coverage["correspondence_failures"] = len(corr_fail)
